@@ -14,6 +14,7 @@ Decided (structure of spifconf_shell_expand and the variable store):
       insertion uses (strcmp), so lookup and insertion agree on the order
   V4  every indexed store into the result buffer is below its size (GHOSTPOS over the output index; also with DEBUG=0)
   V7  the escape table: every backslash-letter the code turns into a constant yields the control character of that name
+  V9  spiftool_safe_strncpy stores a terminator on every return reachable with size >= 1
   V8  ${NAME} / $(NAME): the closing bracket that ended the name scan is consumed, not handed back to the main loop as text
   B1  CAP over the builtin_* functions: every write into their buffers (the %exec command line, ...) is bounded
 Not decided: the value of the expansion (escape table, quoting, %put/%get semantics)."""
@@ -41,7 +42,7 @@ def run(tier="quick"):
                             "bounded copies, effect set, ordering agreement of the variable store")
     for rid, txt in (("N1", "input cursor never passes the terminator"), ("V1", "every iteration writes position j or retracts j"),
                      ("V2", "bounded copies: destination newbuff + j, size max - j"), ("V3", "result terminated at j"), ("V4", "every indexed store into the result buffer is inside it"),
-                     ("V5", "effects within the declared set"), ("B1", "the built-ins' buffer writes are bounded (CAP)"), ("V7", "escape letters map to the control characters they name"), ("V8", "a bracketed reference consumes its closing bracket"), ("V6", "lookup early exits use the insertion's ordering function")):
+                     ("V5", "effects within the declared set"), ("B1", "the built-ins' buffer writes are bounded (CAP)"), ("V7", "escape letters map to the control characters they name"), ("V8", "a bracketed reference consumes its closing bracket"), ("V9", "the bounded copy terminates its destination whenever size >= 1"), ("V6", "lookup early exits use the insertion's ordering function")):
         chk.rule(rid, txt)
     prog = facts.extract(only=["conf.c"])
     u = prog.units["conf.c"]
@@ -433,6 +434,67 @@ def run(tier="quick"):
                       "(\"${HOME}/x\" expands to \"/home/u}/x\")" % (f.name, chr(OPEN[kv]), chr(kv), chr(kv)),
                proof="on every path from the scan's exit on the closer to the main loop's next read the cursor has moved past it")
     chk.count("bracketed_reference_scans", len(scans), floor=2)
+    # ---- V9 the bounded copy the expansion relies on terminates what it wrote: every return of spiftool_safe_strncpy that is
+    # reachable with valid strings and a size of at least 1 is preceded by a store of the terminator through the destination
+    # (the expansion copies into an uninitialised stack buffer and counts on the callee for the NUL, also when one byte is left)
+    prog_s = facts.extract(only=["strings.c"])
+    sc = prog_s.need("spiftool_safe_strncpy")
+    scfg = nullness.prepared_cfg(sc, NORETURN)
+    dd, szd = sc.params[0]["d"], sc.params[2]["d"]
+    rooted = {dd}
+    changed_ = True
+    while changed_:
+        changed_ = False
+        for d_, v_ in sc.vardecls.items():
+            if d_ not in rooted and v_.get("init") is not None and any(y.get("k") == "ref" and y.get("d") in rooted for y in walk(v_["init"])):
+                rooted.add(d_)
+                changed_ = True
+        for x in walk(sc.body):
+            if x.get("k") == "assign" and x.get("op") == "=":
+                l_ = X.strip(x["ch"][0])
+                if l_.get("k") == "ref" and l_.get("d") not in rooted and any(y.get("k") == "ref" and y.get("d") in rooted for y in walk(x["ch"][1])):
+                    rooted.add(l_["d"])
+                    changed_ = True
+
+    def v9_transfer(st, n, blk):
+        st = nullness.transfer(st, n, blk)
+        if n.get("k") == "assign" and n.get("op") == "=" and X.const_val(n["ch"][1]) == 0:
+            l_ = X.strip(n["ch"][0])
+            if l_.get("k") in ("un", "index") and (l_.get("op") == "*" or l_.get("k") == "index") and any(
+                    y.get("k") == "ref" and y.get("d") in rooted for y in walk(l_["ch"][0])):
+                return st | {("term",)}
+        return st
+
+    def v9_refine(st, cond, truth, blk):
+        st2 = nullness.refine(st, cond, truth, blk)
+        if st2 is None or isinstance(truth, tuple):
+            return st2
+        for f_ in X.implied(cond, truth):
+            if f_[0] == "cmp":
+                op_, a_, b_ = f_[1], f_[2], f_[3]
+                ub = None
+                try:
+                    if a_ == "d%d" % szd and op_ in ("<", "<="):
+                        ub = int(b_) - (1 if op_ == "<" else 0)
+                    if b_ == "d%d" % szd and op_ in (">", ">="):
+                        ub = int(a_) - (1 if op_ == ">" else 0)
+                except ValueError:
+                    ub = None
+                if ub is not None and ub <= 0:
+                    st2 = st2 | {("nosize",)}
+        return st2
+    v9_rets = []
+
+    def v9_visit(st, n, blk):
+        if n.get("k") == "return":
+            v9_rets.append((n, ("term",) in st or ("nosize",) in st))
+    seed9 = frozenset({("nn", "d%d" % dd), ("nn", "d%d" % sc.params[1]["d"])})
+    flow.forward(scfg, seed9, v9_transfer, refine=v9_refine, visit=v9_visit)
+    bad9 = [r for r in v9_rets if not r[1]]
+    chk.ob("V9", sc.name, "terminates-what-it-wrote", bool(v9_rets) and not bad9, loc=sc.loc(bad9[0][0]) if bad9 else sc.loc(sc.body),
+           detail="%s returns on a path with valid strings and size >= 1 without having stored a terminator through dest: the caller's "
+                  "buffer (the expansion's uninitialised result buffer, when exactly one byte is left) keeps whatever it held" % sc.name,
+           proof="a store of 0 through the destination precedes every return that is reachable with size >= 1")
     # ---- B1 the built-ins the expansion calls keep every write inside their own buffers (the command line built by %exec,
     # the number printed by %random, the directory listing): CAP with the string/file tools that store through a pointer
     # argument interpreted as well
